@@ -45,7 +45,9 @@ let configs = [
   { dbblack = [ "7" ]; dbwhite = []; keyblack = []; keywhite = []; lua = false; tdb = 2; resume = false; scount = 100; ssize = 1000000 };
   { dbblack = []; dbwhite = []; keyblack = []; keywhite = []; lua = false; tdb = -1; resume = true; scount = 100; ssize = 1000000 };
   { dbblack = []; dbwhite = []; keyblack = [ "b" ]; keywhite = []; lua = false; tdb = 0; resume = false; scount = 5; ssize = 1000000 };
-  { dbblack = [ "7" ]; dbwhite = []; keyblack = []; keywhite = []; lua = true; tdb = 2; resume = true; scount = 3; ssize = 1000000 } ]
+  { dbblack = [ "7" ]; dbwhite = []; keyblack = []; keywhite = []; lua = true; tdb = 2; resume = true; scount = 3; ssize = 1000000 };
+  (* target.db = 0 on a resumed run whose checkpoint sits in another database: the connection is NOT on db 0 when the stream starts *)
+  { dbblack = []; dbwhite = []; keyblack = []; keywhite = []; lua = false; tdb = 0; resume = true; scount = 4; ssize = 1000000 } ]
 
 let gen_cmd st =
   let key () = rnd_pick st [ "a1"; "a2"; "b1"; "b2"; "k"; "redis-shake-checkpoint-x" ] in
@@ -81,7 +83,7 @@ let gen_case st (cfg : cfg) : case =
   let cmds = List.rev !cmds in
   let ncmd = List.length cmds in
   let cuts = (0, 0) :: (if ncmd > 2 && rnd_int st 3 = 0 then [ (1 + rnd_int st (ncmd - 1), 700) ] else []) in
-  { cfg; startdb = (if cfg.resume && rnd_int st 3 = 0 then rnd_pick st [ 1; 2 ] else 0); base = rnd_pick st [ 0; 1000; 123456789 ]; cmds; cuts }
+  { cfg; startdb = (if cfg.resume && rnd_int st (if cfg.tdb = 0 then 2 else 3) = 0 then rnd_pick st [ 1; 2; 3 ] else 0); base = rnd_pick st [ 0; 1000; 123456789 ]; cmds; cuts }
 
 let to_line (cs : case) =
   let rb = raws_of cs in
